@@ -55,7 +55,10 @@ class Speller(object):
         table = {'\b': 'b', '\f': 'f', '\n': 'n', '\r': 'r', '\t': 't', '\\': '\\', q: q}
         for ch in s:
             cp = ord(ch)
-            if ch in table:
+            if cp <= 0xFFFF and self.r.random() < 0.12:
+                # every character - the backslash, the quote and the control characters included - may be spelled \uXXXX
+                out.append(('\\u' if self.r.random() < 0.8 else '\\U') + ('%04x' if self.r.random() < 0.5 else '%04X') % cp)
+            elif ch in table:
                 out.append('\\' + table[ch])
             elif ch == '$' and q == '"' and self.r.random() < 0.5:
                 out.append('\\$')
@@ -199,6 +202,11 @@ def check_doc(grids, rnd, how):
     return None, doc
 
 
+# (text between the quotes, the string it denotes): \\ and \uXXXX spellings next to characters that would form another escape
+ESCAPE_CASES = [('C:\\u005cnew', 'C:\\new'), ('\\u005cx', '\\x'), ('\\\\u0041', '\\u0041'), ('\\u005c\\u005c', '\\\\'), ('\\u005cu0041', '\\u0041'), ('\\\\n', '\\n'),
+                ('\\\\\\n', '\\\n'), ('a\\u005c', 'a\\'), ('\\u005ct\\t', '\\t\t'), ('\\U005Cb', '\\b'), ('\\u0041\\u005c\\u0042', 'A\\B')]
+
+
 def usable(g):
     """values whose spelling by the reference speller is exact (floats via repr, coordinates rounded to 6 places)"""
     return True
@@ -228,6 +236,21 @@ def bounded(tier, seed):
         r, doc = check_doc(gs, rnd, how)
         if r and len(failures) < 15:
             failures.append({'id': 'C03/multi', 'what': r, 'input': {'kind': 'doc', 'text': doc, 'how': how, 'n': len(gs)}})
+    # escape spellings whose decoding depends on reading the text once, left to right
+    for ver in ('2.0', '3.0'):
+        for text, want in ESCAPE_CASES:
+            for q, mk in (('"', lambda x: x), ('`', hszinc.Uri)):
+                cases += 1
+                lit = q + text + q
+                doc = 'ver:"%s"\na,b\n%s,"n"\n' % (ver, lit)
+                try:
+                    g = hszinc.parse(doc, mode=hszinc.MODE_ZINC)
+                    got = g[0]['a']
+                    ok = type(got) is type(mk(want)) and str.__str__(got) == want and g[0]['b'] == 'n'
+                except Exception as e:
+                    ok, got = False, e
+                if not ok and len(failures) < 15:
+                    failures.append({'id': 'C03/escape/%s/%s' % (ver, text), 'what': 'cell %s denotes %r, read as %r' % (lit, want, got), 'input': {'kind': 'escape', 'ver': ver, 'text': text, 'want': want, 'q': q}})
     # empty input
     for data, single, want in (('', True, None), ('', False, []), (b'', True, None), ('\n', False, []), ('\r\n\r\n', False, [])):
         cases += 1
@@ -244,6 +267,16 @@ def bounded(tier, seed):
 
 
 def replay(inp):
+    if inp.get('kind') == 'escape':
+        import hszinc
+        lit = inp['q'] + inp['text'] + inp['q']
+        doc = 'ver:"%s"\na,b\n%s,"n"\n' % (inp['ver'], lit)
+        try:
+            got = hszinc.parse(doc, mode=hszinc.MODE_ZINC)[0]['a']
+            ok = str.__str__(got) == inp['want']
+        except Exception as e:
+            ok, got = False, e
+        return {'reproduced': not ok, 'detail': 'cell %s denotes %r, read as %r' % (lit, inp['want'], got)}
     import hszinc
     k = inp.get('kind')
     if k in ('framing_doc', 'framing'):
